@@ -104,6 +104,14 @@ static PathsD to_d(Rng& r, const Paths64& pp, double div) {
   (void)r; return o;
 }
 
+#ifdef USINGZ
+// deterministic Z callbacks registered through the C interface (SetZCallback64 / SetZCallbackD) and, for the reference,
+// directly on the C++ objects: every registration state (none, 64 only, D only, both) is exercised
+static void zcb64(const Point64& a, const Point64&, const Point64& b, const Point64&, Point64& pt) { pt.z = pt.x * 31 + pt.y * 7 + (a.z ^ b.z) % 5 + 1000; }
+static void zcbD(const PointD& a, const PointD&, const PointD& b, const PointD&, PointD& pt) { pt.z = (int64_t)std::llround(pt.x * 16) * 31 + (int64_t)std::llround(pt.y * 16) * 7 + (a.z ^ b.z) % 5 + 2000; }
+struct CbGuard { CbGuard(int st) { SetZCallback64((st & 1) ? zcb64 : nullptr); SetZCallbackD((st & 2) ? zcbD : nullptr); } ~CbGuard() { SetZCallback64(nullptr); SetZCallbackD(nullptr); } };
+#endif
+
 #define FAIL(claim, tag, msg) do { ctx.violation(claim, { tag }, c, msg); return; } while (0)
 
 static void judge(Ctx& ctx, const Case& c0, bool from_replay) {
@@ -173,9 +181,17 @@ static void judge(Ctx& ctx, const Case& c0, bool from_replay) {
   A64 cs, cc, co; { A64 t1; t1.p = CreateCPathsFromPathsT(S); cs.p = exact_copy(t1.p); A64 t2; t2.p = CreateCPathsFromPathsT(C); cc.p = exact_copy(t2.p); A64 t3; t3.p = CreateCPathsFromPathsT(O); co.p = exact_copy(t3.p); }
   AD ds, dc, dopen; { AD t1; t1.p = CreateCPathsDFromPathsD(Sd); ds.p = exact_copy(t1.p); AD t2; t2.p = CreateCPathsDFromPathsD(Cd); dc.p = exact_copy(t2.p); AD t3; t3.p = CreateCPathsDFromPathsD(Od); dopen.p = exact_copy(t3.p); }
   ctx.evaluated();
+#ifdef USINGZ
+  const int cbstate = (int)c.geti("cbstate", 0);
+  CbGuard cbguard(cbstate);
+  ctx.count("cbstate_" + std::to_string(cbstate));
+#endif
   switch (fn) {
     case 0: case 1: { // BooleanOp64 / BooleanOp_PolyTree64
       Clipper64 cl; cl.PreserveCollinear(pc); cl.ReverseSolution(rev);
+#ifdef USINGZ
+      if (cbstate & 1) cl.SetZCallback(zcb64);
+#endif
       if (!S.empty()) cl.AddSubject(S); if (!O.empty()) cl.AddOpenSubject(O); if (!C.empty()) cl.AddClip(C);
       if (fn == 0) { Paths64 sol, solo; bool ok = cl.Execute((ClipType)ct, (FillRule)fr, sol, solo);
         A64 x, y; int rc = BooleanOp64((uint8_t)ct, (uint8_t)fr, cs.p, co.p, cc.p, x.p, y.p, pc, rev);
@@ -191,6 +207,9 @@ static void judge(Ctx& ctx, const Case& c0, bool from_replay) {
       break; }
     case 2: case 3: { // BooleanOpD / BooleanOp_PolyTreeD
       ClipperD cl(prec); cl.PreserveCollinear(pc); cl.ReverseSolution(rev);
+#ifdef USINGZ
+      if (cbstate & 2) cl.SetZCallback(zcbD);
+#endif
       if (!Sd.empty()) cl.AddSubject(Sd); if (!Od.empty()) cl.AddOpenSubject(Od); if (!Cd.empty()) cl.AddClip(Cd);
       if (fn == 2) { PathsD sol, solo; bool ok = cl.Execute((ClipType)ct, (FillRule)fr, sol, solo);
         AD x, y; int rc = BooleanOpD((uint8_t)ct, (uint8_t)fr, ds.p, dopen.p, dc.p, x.p, y.p, prec, pc, rev);
@@ -278,6 +297,7 @@ void vf_case(Ctx& ctx, uint64_t i) {
   if (x0 > x1) std::swap(x0, x1); if (y0 > y1) std::swap(y0, y1); if (r.chance(0.05)) x1 = x0;
   c.p64["rect"] = Paths64{ Path64{ Point64(x0, y0), Point64(x1, y1) } };
   c.seti("zseed", (long long)(r.next() >> 2));
+  c.seti("cbstate", r.irange(0, 3));
   judge(ctx, c, false);
 }
 void vf_replay(Ctx& ctx, const Case& c) { judge(ctx, c, true); }
